@@ -48,10 +48,12 @@ LY(f) == FFrob2(FSub(Y, f.Yp))
 NX == FFrob2(X)
 NY == FFrob2(Y)
 ScoreClause(f) == IF NX = 0 \/ NY = 0 THEN "ok"
+                  ELSE IF FAbs(f.score) > 400 * S THEN "score-out-of-range-or-not-finite-for-non-zero-data"
                   ELSE IF FAbs(FMul(-f.score, FMul(NX, NY)) - (FMul(LX(f), NY) + FMul(LY(f), NX))) > 8 * (NX \div S + NY \div S + 4) * (n * m + 8) + FMul(NX, NY) \div 300
                        THEN "score-differs-from-minus-sum-of-relative-losses" ELSE "ok"
 \* score with latent coordinates supplied by the caller (third argument): the losses of exactly these coordinates
 ScoreTClause(f) == IF f.XrS = <<>> \/ NX = 0 \/ NY = 0 THEN "ok"
+                   ELSE IF FAbs(f.scoreS) > 400 * S THEN "score-out-of-range-or-not-finite-for-non-zero-data"
                    ELSE LET lx == FFrob2(FSub(X, f.XrS))  ly == FFrob2(FSub(Y, f.YpS)) IN
                         IF FAbs(FMul(-f.scoreS, FMul(NX, NY)) - (FMul(lx, NY) + FMul(ly, NX))) > 8 * (NX \div S + NY \div S + 4) * (n * m + 8) + FMul(NX, NY) \div 300
                         THEN "score-with-supplied-latent-coordinates-differs-from-their-losses" ELSE "ok"
